@@ -267,6 +267,26 @@ def corpus_cases(prop):
 # ---------------------------------------------------------------------------------------------
 # campaign runner (worker side)
 
+CASE_LIMIT_S = int(os.environ.get('VERIF_CASE_LIMIT_S', '240'))
+
+
+class CaseHung(BaseException):
+    pass
+
+
+def _on_alarm(signum, frame):
+    raise CaseHung()
+
+
+def _alarm(seconds):
+    import signal
+    try:
+        signal.signal(signal.SIGALRM, _on_alarm)
+        signal.alarm(seconds)
+    except (ValueError, OSError):
+        pass          # not in the main thread: no watchdog
+
+
 def _worker(args):
     prop, tier, seed, k, n, phase = args
     os.environ[GUARD] = '1'
@@ -306,6 +326,7 @@ def _worker(args):
                 if overlap and held is None and mine % 8 == 0 and (can_overlap is None or can_overlap(case)):
                     held = case
                     continue
+                _alarm(CASE_LIMIT_S)
                 try:
                     if held is not None and (can_overlap is None or can_overlap(case)):
                         pair = [held, case]
@@ -326,12 +347,25 @@ def _worker(args):
                             for _, r in again:
                                 r.tags.append('not-reproduced')
                             todo = again
+                except CaseHung:
+                    # the implementation (or the harness) did not finish one case within CASE_LIMIT_S: a busy loop. Reported as a
+                    # failing input of its own kind; the worker goes on with the next case
+                    _alarm(0)
+                    _account(out, case, CaseResult(None, [hit('%s.case-did-not-finish' % prop.lower(), 'running this case did not finish within %d s (the code under test loops without yielding)' % CASE_LIMIT_S,
+                                                              observed={'limit_s': CASE_LIMIT_S})], None, ['case-hung']))
+                    held = None
+                    hung = out['tags'].get('case-hung', 0)
+                    if hung >= 3:
+                        break
+                    continue
                 except Exception:
+                    _alarm(0)
                     out['errors'].append({'case': case, 'error': traceback.format_exc()[-1500:]})
                     held = None
                     if len(out['errors']) > 5:
                         break
                     continue
+                _alarm(0)
                 for case, r in todo:
                     _account(out, case, r)
             if held is not None:
@@ -375,6 +409,8 @@ def _run_overlapped(mod, model, cases):
         ScriptSocket.YIELD = False
     if errs:
         raise RuntimeError('overlapped run: ' + errs[0])
+    if any(r is None for r in res):
+        raise CaseHung()          # the watchdog ended a session greenlet that was looping
     for r in res:
         r.tags.append('run-overlapped')
     return list(zip(cases, res))
